@@ -12,7 +12,7 @@ import (
 func VerifBindDefaultApp(p *Protocol) *Protocol { p.app = defaultApp; return p }
 
 // VerifResetFilters clears the package-level filter registry.
-func VerifResetFilters() { defaultApp.allFilters = filters{} }
+func VerifResetFilters() { defaultApp.allFilters = &filters{} }
 
 // VerifSetMsgID presets the process-wide request id counter.
 func VerifSetMsgID(v int32) { atomic.StoreInt32(&msgID, v) }
